@@ -22,3 +22,48 @@ package snowflake_client
 //@   at call SerializeSessionDescription assert {sends-the-stripped-text} !bc.keepLocalAddresses ==> calls(StripLocalAddresses) == 1 && arg0.SDP == strippedSDP
 //@   at call SerializeSessionDescription assert {keeps-the-type} arg0.Type == entry(offer.Type)
 //@   at call SerializeSessionDescription assert {kept-only-on-request} bc.keepLocalAddresses ==> arg0 == entry(offer)
+//
+// ---- rendezvous requests are fronted and bounded (C11) ----
+// limitedRead: success means the whole body fitted in the limit (a longer body is an error, never silently cut).
+//@ ghost var lrLen int
+//@ ghost var lrBase ref
+//@ func limitedRead(r io.Reader, limit int64) (p []byte, err error)
+//@   props C11
+//@   requires r != nil && 0 <= limit && limit < 1<<40
+//@   after call ReadAll ghost lrLen = len(ret0)
+//@   after call ReadAll ghost lrBase = base(ret0)
+//@   ensures {over-limit-is-an-error} err == nil ==> lrLen <= limit
+//@   ensures {never-truncated} err == nil ==> len(p) == lrLen && base(p) == lrBase
+//
+// httpRendezvous.Exchange: with a front domain the request goes to the front and names the broker only in the Host
+// header; the body is read (through limitedRead, limit 100000) only after a 200 status.
+//@ immutable httpRendezvous.brokerURL
+//@ immutable httpRendezvous.front
+//@ immutable httpRendezvous.transport
+//@ immutable ampCacheRendezvous.brokerURL
+//@ immutable ampCacheRendezvous.cacheURL
+//@ immutable ampCacheRendezvous.front
+//@ immutable ampCacheRendezvous.transport
+//@ ghost var origHost string
+//@ func (r *httpRendezvous) Exchange(encPollReq []byte) (resp []byte, err error)
+//@   props C11
+//@   requires r != nil && r.brokerURL != nil && r.transport != nil
+//@   after call NewRequest ghost origHost = ret0.URL.Host if ret1 == nil
+//@   at call RoundTrip assert {fronted} r.front != "" ==> arg0.URL.Host == r.front && arg0.Host == origHost
+//@   at call RoundTrip assert {direct-when-no-front} r.front == "" ==> arg0.URL.Host == origHost
+//@   at call limitedRead assert {body-only-after-200} resp#1.StatusCode == 200 && arg1 == 100000
+//@   ensures {success-means-read-within-the-limit} err == nil ==> calls(limitedRead) == 1
+//
+// ampCacheRendezvous.Exchange: the poll request itself is what EncodePath encodes; content type "c"; fronting as
+// above; the armored body is read through a 100001-byte limiter only after a 200 status without Location header,
+// and hitting the limit is an error even when the truncated armor happened to decode.
+//@ func (r *ampCacheRendezvous) Exchange(encPollReq []byte) (encPollResp []byte, err error)
+//@   props C11
+//@   requires r != nil && r.brokerURL != nil && r.transport != nil
+//@   at call EncodePath assert {encodes-the-poll} base(arg0) == base(encPollReq) && len(arg0) == len(encPollReq)
+//@   at call CacheURL assert {content-type-c} arg2 == "c" && arg1 == r.cacheURL
+//@   after call NewRequest ghost origHost = ret0.URL.Host if ret1 == nil
+//@   at call RoundTrip assert {fronted} r.front != "" ==> arg0.URL.Host == r.front && arg0.Host == origHost
+//@   at call RoundTrip assert {direct-when-no-front} r.front == "" ==> arg0.URL.Host == origHost
+//@   at call LimitReader assert {body-only-after-200} resp.StatusCode == 200 && arg1 == 100001
+//@   ensures {limit-hit-is-an-error} err == nil ==> calls(LimitReader) == 1 && unbox(lr, *io.LimitedReader).N != 0
